@@ -76,7 +76,7 @@ P("C02", ["R14", "R15", "R16", "R12", "R08", "R09", "R10", "R43", "R47", "R04", 
   "conversions C01/C03 are right), float ties in the second-of-day.",
   [], [])
 
-P("C03", ["R13ab", "R11", "R04", "R07", "R12", "R39", "R49", "R36", "R57", "R64"],
+P("C03", ["R13ab", "R11", "R04", "R07", "R12", "R39", "R49", "R36", "R57", "R64", "R65", "R66"],
   "structural slot-group and dispatch-matrix checks, leap-table polarity, "
   "cache-key discipline",
   "(thin) R13a each to_*_date fills exactly its own slot group from the "
@@ -252,7 +252,7 @@ P("C12", ["R18", "R19", "R04", "R07"],
   "counts and values for concrete series.",
   ["two known findings (K1, K2) are reported as KNOWN-FINDING lines"], [])
 
-P("C13", ["R19", "R43", "R61"],
+P("C13", ["R19", "R43", "R61", "R68"],
   "abstract interpretation of guard status of returned points",
   "R19 every time point computed by arithmetic and returned by get_next, "
   "get_prev or get_first_after has passed self._get_is_in_bounds on that "
@@ -355,7 +355,7 @@ P("C18", ["R26", "R12", "R14", "R07", "R41", "R42", "R44"],
   "results for actual system zone configurations (read from time.* at run "
   "time).", [], [])
 
-P("C19", ["R30", "R20", "R32", "R12", "R51", "R55", "R63"],
+P("C19", ["R30", "R20", "R32", "R12", "R51", "R55", "R63", "R67"],
   "structural try/handler and option-plumbing checks, call-graph "
   "reachability",
   "R30 all four dispatch calls (for the recurrence generator: its loop) "
@@ -413,7 +413,10 @@ NOT_APPLICABLE = {}
 # line, because line numbers moved with the fix commits).
 CORE_RULES = ("R04", "R05", "R06", "R07", "R08", "R09", "R10", "R11", "R12",
               "R13ab", "R13c", "R14", "R15", "R16", "R17", "R22", "R34",
-              "R36", "R39", "R41", "R43", "R47", "R49", "R50", "R56", "R57", "R62", "R64")
+              "R36", "R39", "R41", "R43", "R47", "R49", "R50", "R56", "R57", "R62", "R64",
+              # (sixth round) operand mutation, the duration and year-range
+              # text tables, and the rules added with that round
+              "R01", "R02", "R03", "R27", "R54", "R65", "R66")
 
 ENTRY_POINTS = {
     "C01": ["data.TimePoint.__add__", "data.TimePoint.__radd__"],
@@ -427,11 +430,14 @@ ENTRY_POINTS = {
     "C06": ["data.TimePoint.to_time_zone", "data.TimePoint.to_utc",
             "data.TimePoint.to_local_time_zone",
             "dumpers.TimePointDumper._dump_expression_with_properties"],
-    "C07": ["parsers.TimePointParser.parse"],
+    "C07": ["parsers.TimePointParser.parse", "data.TimePoint.__str__",
+            "dumpers.TimePointDumper.dump"],
     "C08": ["data.TimePoint.__str__", "dumpers.TimePointDumper.dump",
             "parsers.TimePointParser.parse"],
     "C09": ["data.TimePoint.__init__", "data.TimePoint._check_bounds",
-            "parsers.TimePointParser.parse"],
+            "parsers.TimePointParser.parse", "parsers.DurationParser.parse",
+            "parsers.TimeRecurrenceParser.parse",
+            "data.TimeRecurrence.__init__", "data.Duration.__init__"],
     "C10": ["data.Duration.__str__", "parsers.DurationParser.parse"],
     "C11": ["data.Duration.__add__", "data.Duration.__sub__",
             "data.Duration.__mul__", "data.Duration.__floordiv__",
@@ -459,14 +465,35 @@ ENTRY_POINTS = {
             "data.get_week_date_from_calendar_date",
             "data.get_week_date_from_ordinal_date",
             "data.get_calendar_date_week_date_start",
-            "data.get_ordinal_date_week_date_start"],
+            "data.get_ordinal_date_week_date_start",
+            # "every calendar-dependent result": arithmetic and validation
+            "data.TimePoint.__add__", "data.TimePoint.__sub__",
+            "data.TimePoint.add_months", "data.TimePoint._check_bounds"],
     "C17": ["dumpers.TimePointDumper.strftime",
             "parsers.TimePointParser.strptime"],
     "C18": ["data.TimePoint.seconds_since_unix_epoch",
             "data.get_timepoint_from_seconds_since_unix_epoch",
             "data.TimePoint.to_local_time_zone",
             "timezone.get_local_time_zone"],
+    "C19": ["main.main", "datetimeoper.DateTimeOperator.process_time_point_str",
+            "datetimeoper.DateTimeOperator.diff_time_point_strs",
+            "datetimeoper.DateTimeOperator.iter_recurrence_str",
+            "datetimeoper.DateTimeOperator.format_duration_str"],
     "C20": ["data.TimePoint.add_truncated", "data.TimePoint.__add__"],
+}
+
+# Obligations of table rules that carry another property's tag but decide a
+# clause of this one as well: (rule prefix, tag that counts).
+INHERIT_TAGS = {
+    # the date-time-like duration spelling is read with the time point
+    # tables
+    "C10": [("R23", "C07"), ("R24", "C07")],
+    # "every in-range combination is accepted in each parser configuration"
+    "C09": [("R24", "C07"), ("R37", "C07"), ("R03", "C16")],
+    # --as-total and the recurrence text round trip go through
+    # str(Duration) and DurationParser.parse
+    "C19": [("R27", "C10"), ("R26", "C10"), ("R60", "C10")],
+    "C14": [("R27", "C10"), ("R26", "C10"), ("R60", "C10")],
 }
 
 
